@@ -504,6 +504,11 @@ func comparedWithInterfaceType(c *ssa.Call) bool {
 			if !x.Call.IsInvoke() {
 				return false
 			}
+			switch x.Call.Method.Name() {
+			case "ConvertibleTo", "AssignableTo", "String", "Name":
+			default:
+				return false // Comparable(), Kind(), Elem() ... of the wrapper's type decide something else than the value's own type would
+			}
 		case *ssa.MakeInterface:
 		default:
 			return false
